@@ -530,9 +530,6 @@ def register_in_mps_quantizers(mod: fx.GraphModule):
     for n in mod.graph.nodes:
         if is_inherited_layer(n, mod, (MPSModule,)):
             sub_mod = cast(MPSModule, mod.get_submodule(str(n.target)))
-            prev_n = n.meta['input_features_set_by']
-            if prev_n.op == 'placeholder':
-                continue
             # the input quantizer is the output quantizer of the MPS layer that last (re-)quantized
             # the consumed tensor: walk the data path, not the features-defining chain (a depthwise
             # conv. or an add fed by the network input is not features-defining, but re-quantizes)
